@@ -216,7 +216,7 @@ fn do_case(case: Vec<i128>) {
     let r = catch(|| {
         dispatch_len!(
             n,
-            [U0, U1, U2, U3, U5, U8, U16, U33, U1025],
+            [U0, U1, U2, U3, U5, U8, U16, U33, U1025, U4096],
             |N| if ZST_RUN.with(|z| z.get()) { run::<Tz, N>(&case) } else { run::<Tr, N>(&case) },
             panic!("length {} not monomorphised", n)
         )
@@ -266,6 +266,7 @@ fn main() {
                     hints.push((0, n as i128 - 1));
                     hints.push((n as i128, n as i128)); // claims exactly N whatever is delivered
                 }
+                hints.push((n as i128 + 2, 1)); // lower bound above the upper bound: rules every length out
                 for (lo, hi) in hints {
                     // plain script
                     let mut case = vec![form, n as i128, lo, hi];
@@ -296,6 +297,21 @@ fn main() {
                         dist("nonfused");
                         do_case(c);
                     }
+                }
+            }
+        }
+    }
+    // an array larger than 16 KiB (4096 x 8 bytes): exact, one short, one and two too many, under an exact, a loose
+    // and an absent hint
+    if !only_panics {
+        let n = 4096usize;
+        for form in 0..4i128 {
+            for count in [n - 1, n, n + 1, n + 2] {
+                for (lo, hi) in [(count as i128, count as i128), (0, -1), (0, 2 * n as i128), (n as i128, -1)] {
+                    let mut c = vec![form, n as i128, lo, hi];
+                    c.extend(0..count as i128);
+                    dist("N4096");
+                    do_case(c);
                 }
             }
         }
